@@ -44,7 +44,7 @@ var propInfo = map[string]struct {
 	"C13": {"proof",
 		"Typestate of storage errors and read-only frames: every Storage / Cursor operation requires !failed and sets failed / lastErr on error; every plan function under contract has the postcondition failed ==> err == lastErr (the error is returned unchanged) and, by its precondition obligations at the call sites, issues no storage operation once one has failed; the scan plans, filter and limit plans have frames without the ghost write counters (nmut unchanged: no mutating call); buildDeletePlan returns only after Init and surfaces its error.",
 		[]string{
-			"scope: proved per API call of the functions listed under functions_under_contract; ProjectionPlan, FinalOrderPlan, AggregatePlan, the Batch forms of the scans and buildPlan/BuildPlan are not yet under contract for this property",
+			"scope: proved per API call of the functions listed under functions_under_contract (now including the Batch forms of the four scans and the grouping loops AggregatePlan.prepare / prepareBatch); ProjectionPlan.Batch, FinalOrderPlan and buildPlan/BuildPlan are not yet under contract for this property",
 			"A-STORE: the Storage implementation reports failure only through the returned error",
 		}},
 	"C06": {"proof",
@@ -58,6 +58,7 @@ var propInfo = map[string]struct {
 		"Row mode, proved on the real code. (1) The evaluator computes the documented meaning of the operators from the values of their operands: BinaryOpExpr.Execute, for every operator code, operand values and pair - `=`/`!=` (equal bytes for texts, equal numbers for integers, equal truth values), `^=` (prefix), `&`/`|` and their keyword forms (Boolean, left to right, the right operand not needed when the left decides), `> >= < <=` (byte-wise on texts when the left operand's static type is text, numeric otherwise: integers exactly, anything involving a float as floats), `+ - * /` (integers stay integers with truncating division, any float operand makes it a float operation, division by zero is an error), `!`; literals and key / value evaluate to themselves; each with its exact definedness condition (when it returns an error). (2) The scans return exactly the filtered pairs in cursor order: FullScan / PrefixScan / RangeScan / MultiGet Next return the next pair of the cursor (or key list) on which the filter evaluates to true, every pair skipped before it fails the filter (ghost index), the end is reported only when the cursor (region) is exhausted, and Seek / prefix / range bounds lose no key of the region (byte-string order axioms). (3) Filter returns exactly `the filter expression evaluates to the Boolean true`.",
 		[]string{
 			"NOT covered: regular-expression match, IN and BETWEEN (thin assumed contracts for execRegexpMatch / exec*In / exec*Between: the code refuses `x between a and a` although the documented meaning allows it - recorded in DESIGN.md as an open observation), scalar functions and field access (C10), string concatenation's value, the batch-mode twins (C03), that the composition scan -> projection -> caller yields each pair once (on paper from the per-call contracts and the cursor axioms)",
+			"batch mode of the scans is covered: FullScanPlan / PrefixScanPlan / RangeScanPlan .Batch return exactly the filter-passing pairs of the cursor segment they consume, in cursor order (rows, gaps, tail, end clauses over the positions recorded in chooseIdxes); MultiGetPlan.Batch returns only stored, listed, passing pairs with their stored values and reads every listed key before a short batch - that it returns every such pair is NOT stated (it needs an existential over the result that the solvers do not carry through the three loops)",
 			"A-EVAL: the outcome of evaluating an expression on a pair is a function of the expression and the pair; for operator nodes the interface clauses `evalok` / `evalv` name that outcome (definitional), the proved clauses relate it to the operands' outcomes",
 			"A-STORE: a cursor iterates a snapshot in strictly ascending key order, Seek positions at the first key >= its argument",
 			"static result types (rtype) are the specification function of C14 (A-RTYPE)",
@@ -66,7 +67,9 @@ var propInfo = map[string]struct {
 	"C03": {"proof",
 		"Row / batch twins, each proved against the same meaning as its row form. (1) Expressions: the interface contract of ExecuteBatch says that a batch that completes has evaluated every row and element i of the result is the value of the expression on pair i; proved for the literal, key / value and ! nodes and, through the documented-meaning predicate doc_bin that the row evaluator was proved to compute (C01), for the vector forms of = != ^= & | > >= < <= + - * / (execEqualBatch, execPrefixMatchBatch, execAndOrBatch, execMathBatch, execNumberCompareBatch, execStringCompareBatch and the dispatcher) with loop invariants over the in-place combination of the operand columns. (2) The filter on a chunk gives exactly the row filter's verdicts. (3) Function calls accept the same argument counts in both forms (D7 repaired). (4) The four batch scans keep, for every pair they return, its position within everything filtered in the call, in strictly ascending order (what AdjustChunkCache needs to re-index the chunk caches; D8 repaired in MultiGetPlan.Batch). LimitPlan / FinalLimitPlan Batch vs Next are C08's contracts (same ghost sequence).",
 		[]string{
-			"NOT covered: that a batch scan returns exactly the filtered pairs of the cursor segment it consumes (only the index bookkeeping is proved), projection / order / aggregate batch forms, the vector forms of the scalar functions, IN / BETWEEN / regexp / string concatenation (thin assumed contracts), the chunk caches (FieldReferenceExpr.ExecuteBatch, AdjustChunkCache: assumed thin contract)",
+			"batch scans: the three cursor scans return exactly the filter-passing pairs of the cursor segment they consume, in order, and a short batch means the region is exhausted - the same sequence the row forms produce call by call (C01 clauses found / skipped / end); MultiGetPlan.Batch: soundness and progress only (see C01)",
+			"vector functions that evaluate row by row (join, int_list, float_list, functions without a vector body) are proved to call the row form without the shared per-row cache (D22 repaired) and int_list / float_list to produce the row form's lists",
+			"NOT covered: projection / order / aggregate-rendering batch forms, the other vector forms of the scalar functions, IN / BETWEEN / regexp / string concatenation (thin assumed contracts), the chunk caches (FieldReferenceExpr.ExecuteBatch, AdjustChunkCache: assumed thin contract; D21 repaired but not yet pinned by an obligation)",
 			"the vector form of & and | evaluates both operands on every row (no short cut): it can fail where the row form succeeds; the property only demands the converse, which is what is proved",
 			"doc_bin / doc_not restate, through the definitional interface clauses, what BinaryOpExpr.Execute / NotExpr.Execute were proved to compute (same predicates docBin / docNot in both places)",
 			"the registered function bodies are called through function values with assumed frame-only contracts",
@@ -118,7 +121,8 @@ var propInfo = map[string]struct {
 	"C05": {"proof",
 		"Row mode, proved on the real code. (1) An alias is a pure abbreviation: FieldReferenceExpr.Execute returns, for every pair, cache content and cache switch, exactly the outcome and value of its defining expression on that pair. (2) The row cache is invisible: the cache is *coherent* with a pair when every entry holds the value of its alias on that pair; evaluating any expression requires and preserves coherence (interface contract of Expression.Execute, active under this property), SetFieldResult / GetFieldResult / Clear are proved against the map semantics, and every row-mode scan (full, prefix, range, multi-get) is proved to establish coherence for each pair before it filters it - which failed on the pinned tree (D5, repaired) - and to hand the returned pair over with a cache coherent with exactly that pair; LimitPlan passes this on. (3) ProjectionPlan.Next returns one column per field, in order, column k being the value of field k on the pair the child produced - whether it came out of the cache or was evaluated - and `select *` returns the stored key and value.",
 		[]string{
-			"NOT covered: batch mode (chunk caches, AdjustChunkCache; suspected defects D8, D20 of DESIGN.md section 6), aliases used in ORDER BY / GROUP BY / aggregate arguments, and the statement-level rewriting that replaces names by references",
+			"aggregation is covered at the level of the cache discipline: AggregatePlan.prepare / prepareBatch are proved to hand getAggrKey, createAggrRow and updateRowAggrFunc a context whose per-row cache is coherent with the pair being processed (D23 repaired: the cache is cleared per pair), and the accumulators' Update to require and preserve coherence; the vector forms that fall back to row evaluation run without the shared row cache (D22 repaired)",
+			"NOT covered: the per-chunk caches of batch mode (FieldReferenceExpr.ExecuteBatch, Get/SetChunkFieldResult, AdjustChunkCache; D8, D21 repaired), aliases in ORDER BY, and the statement-level rewriting that replaces names by references",
 			"A-ALIAS: every alias reference points at the select field of its name, field names of a statement are distinct (aliasOf is the function from names to select fields); the checker's rewriting is proved to create references only from names (C14) but the link to aliasOf is assumed",
 			"A-EVAL: the outcome of evaluating an expression on a pair is a function of the expression and the pair (evalok / evalv); ev_ref is the documented meaning of a reference",
 			"ProjectionPlan.Next requires a non-nil execution context (it calls ctx.Clear() unconditionally)",
@@ -133,7 +137,7 @@ var propInfo = map[string]struct {
 	"C09": {"proof",
 		"The accumulators count, sum, avg, min and max are proved to be left folds in scan order: Update is exactly one fold step on convertToNumber of the argument's value for the pair (state unchanged when the argument fails to evaluate), Complete reads the documented result out of the state (integer sum unless a float was seen; avg = sum / count as floats; min / max by the integer or float reading), Clone yields the initial state in a fresh object. convertToNumber is evaluated in place (pure). The group key of a row is the length-prefixed encoding of its rendered group-by values, which distinct value tuples cannot share (defect D16, repaired).",
 		[]string{
-			"group keys are covered (getAggrKey and its batch twin batchGetAggrKeys return gkN = the length-prefixed encoding of the rendered group-by values, proved injective for 1, 2 and 3 group-by columns by lemmas gk_inj1..3 / group_sound1..3 over the cat-cancellation axiom); NOT yet covered: the dispatch from key to row (AggregatePlan.prepare / prepareBatch, createAggrRow, next / batch rendering), group_concat, json_arrayagg and quantile",
+			"group keys are covered (getAggrKey and its batch twin batchGetAggrKeys return gkN = the length-prefixed encoding of the rendered group-by values, proved injective for 1, 2 and 3 group-by columns by lemmas gk_inj1..3 / group_sound1..3 over the cat-cancellation axiom); the grouping loops prepare / prepareBatch are under contract for the cache discipline (C05) and error surfacing (C13) only; NOT yet covered: which row a pair is dispatched to (one row per distinct key, first-seen order), createAggrRow / updateRowAggrFunc bodies (thin assumed contracts), next / batch rendering, group_concat, json_arrayagg and quantile",
 			"axiom cat_cancel (cat(a, b) = cat(a, c) implies b = c, and equal-length prefixes of equal concatenations are equal) and be32 injective below 2^32 are assumed of byte strings; a rendered value longer than 4 GiB is outside the model",
 			"A-EVAL: the value of the aggregate's argument is evalv of the interface contract of Expression.Execute",
 			"floats are uninterpreted (fadd / fdiv / flt): the fold order is the code's, no IEEE fact is used; int64 is mathematical (A-INT)",
